@@ -250,6 +250,10 @@ impl Scheduler for SimScheduler {
     }
 }
 
+/// Set by the harness when panics are to stay silent (see `run_sim`).
+pub static QUIET_PANICS: std::sync::atomic::AtomicBool = std::sync::atomic::AtomicBool::new(false);
+static HOOK_RESET: std::sync::atomic::AtomicBool = std::sync::atomic::AtomicBool::new(false);
+
 /// Outcome of one simulated execution.
 pub struct ExecResult<T> {
     pub value: Result<T, String>,
@@ -295,6 +299,15 @@ where
     let res = std::panic::catch_unwind(std::panic::AssertUnwindSafe(move || {
         let runner = Runner::new(sched, cfg);
         runner.run(move || {
+            // shuttle wraps the panic hook once per process with one that prints two
+            // lines per failing execution; panics are ordinary verdicts here, and a
+            // worker that fills its stderr pipe with them blocks.  Put the quiet hook
+            // back after shuttle has installed its own.
+            if QUIET_PANICS.load(std::sync::atomic::Ordering::Relaxed)
+                && !HOOK_RESET.swap(true, std::sync::atomic::Ordering::Relaxed)
+            {
+                std::panic::set_hook(Box::new(|_| {}));
+            }
             let f = fcell.lock().unwrap().take().expect("one execution per runner");
             let v = f();
             *slot2.lock().unwrap() = Some(v);
